@@ -414,14 +414,21 @@ pub fn load_value(j: &Value, crosscheck: bool) -> Result<Loaded, LoadError> {
                 }
             }
             (p, k) if p.starts_with("STARK/FRI/Commitment/Layer ") && k == "Hash" => {
+                match p["STARK/FRI/Commitment/Layer ".len()..].parse::<usize>() {
+                    Ok(n) if n >= 1 && n <= n_inner => {}
+                    _ => return Err(LoadError::Unspecified(format!("unknown P->V annotation {} / {}", p, k))),
+                }
                 let v = single(ln.value)?;
                 check(&[big(&v)], false)?;
                 fri_roots.push(v);
             }
             (p, k) if p.starts_with("STARK/FRI/Decommitment/Layer 0/Virtual Oracle/Trace ") => {
-                let t: usize = p["STARK/FRI/Decommitment/Layer 0/Virtual Oracle/Trace ".len()..].parse().map_err(|_| LoadError::Malformed("trace number".into()))?;
+                // a path the parser's filters do not know (garbled or out-of-range trace number) does not
+                // exist for it: not judged, like every other unknown path
+                let unknown = || LoadError::Unspecified(format!("unknown P->V annotation {} / {}", p, k));
+                let t: usize = p["STARK/FRI/Decommitment/Layer 0/Virtual Oracle/Trace ".len()..].parse().map_err(|_| unknown())?;
                 if t > 2 {
-                    return mal("trace number");
+                    return Err(unknown());
                 }
                 match k {
                     "Field Element" => {
@@ -444,7 +451,7 @@ pub fn load_value(j: &Value, crosscheck: bool) -> Result<Loaded, LoadError> {
             (p, k) if p.starts_with("STARK/FRI/Decommitment/Layer ") => {
                 let li: usize = p["STARK/FRI/Decommitment/Layer ".len()..].parse().map_err(|_| LoadError::Unspecified(format!("unknown P->V annotation {} / {}", p, k)))?;
                 if li == 0 {
-                    return mal("FRI layer number out of range");
+                    return Err(LoadError::Unspecified(format!("unknown P->V annotation {} / {}", p, k)));
                 }
                 if li > n_inner {
                     return Err(LoadError::Unspecified("decommitment lines for FRI layers beyond the declared step list".into()));
